@@ -27,7 +27,7 @@ TECHNIQUE = "runtime monitoring: recording providers + log checker against the d
 ASSUMPTIONS = ["a provider call is the only way a constructor can read a child's terms"]
 N = c09.N
 FLOORS = {
-    "quick": {"nontrivial": 200, "counters": {"reads.calls_checked": 60000, "reads.provider_calls_checked": 120000,
+    "quick": {"nontrivial": 160, "counters": {"reads.calls_checked": 45000, "reads.provider_calls_checked": 90000,
                                                "reads.calls_with_nonzero_shift": 6000},
               "seen": {"rules.form": 6, "rules.constructor": 4}},
     "thorough": {"nontrivial": 4000, "counters": {"reads.calls_checked": 1500000,
